@@ -1,17 +1,20 @@
 //! `vapi`: checks C06, C15 and C19 - real `aldrin::Client`s against a real `aldrin_broker::Broker`
 //! on the deterministic single-threaded simulator (`simbus`).
 //!
-//! Environment switches (all off by default):
-//! * `VAPI_EXCLUDE_F2=1`  classes `claims` (C06) never generate a refused channel claim
-//!   (second claimant / claim of a dead channel); counted as `excluded:f2`. Class `prog` excludes
-//!   the trigger by construction in any case.
-//! * `VAPI_EXCLUDE_F5=1`  classes `late-abort` (C06) and `clean-late-abort` (C15) never drop a pending
-//!   reply while (or right before) its client shuts down; counted as `excluded:f5`.
-//! * `VAPI_EXCLUDE_F6=1`  class `listener-after-destroy` (C06) never polls a bus listener after
-//!   `destroy()`; counted as `excluded:f6`.
-//! * `VAPI_EXCLUDE_F7=1`  C15 applies `BrokerHandle::shutdown()` only at quiescence (no client
-//!   request in flight). C06 always excludes the trigger (`excluded:f7`).
-//! * `VAPI_DEBUG=1`, `VAPI_DEBUG_TAPES=1`, `VAPI_STEP_BOUND=n`  development aids.
+//! Environment switches (all off by default; every class may contain every shape, the switches
+//! are opt-in aids that take one shape out again - the floor of that shape then fails, exit 2):
+//! * `VAPI_EXCLUDE_F2=1`  no refused channel claims (second claimant, claim of a dead or closed end,
+//!   same-client double bind, creator end killed while a claim is in flight); `excluded:f2`.
+//! * `VAPI_EXCLUDE_F5=1`  no pending reply dropped while or right before its client shuts down;
+//!   `excluded:f5`.
+//! * `VAPI_EXCLUDE_F6=1`  no bus listener polled after `destroy()`; `excluded:f6`.
+//! * `VAPI_EXCLUDE_F7=1`  no `BrokerHandle::shutdown()` with requests in flight (C06 operation
+//!   `BrokerShutdown`, C15 cause only at quiescence), no connection shutdown combined with an early
+//!   idle-shutdown request; `excluded:f7`.
+//! * `VAPI_EXCLUDE_F8=1`  no claim future dropped before its reply (`Op::ClaimCancel`); `excluded:f8`.
+//! * `VAPI_EXCLUDE_F9=1`  no client-initiated shutdown racing with `BrokerHandle::shutdown()` (C15
+//!   cause `shutdown-request+broker-shutdown`, C06 `Shutdown` vs `BrokerShutdown`); `excluded:f9`.
+//! * `VAPI_DEBUG=1`, `VAPI_DEBUG_TAPES=1`, `VAPI_TRACE_MSGS=1`, `VAPI_STEP_BOUND=n`  development aids.
 #![allow(dead_code)]
 #![allow(clippy::type_complexity)]
 mod c06;
